@@ -14,7 +14,18 @@ Types  == {"smallint", "int", "bigint", "bool", "varchar"}
 \* class of the offered value relative to the column type
 Classes == {"null", "fits", "fits_min", "fits_max", "too_big", "too_small", "widens",
             "text_of_value", "text_garbage", "other_kind"}
-Forms  == {"values", "select", "subset"}
+\* how the row is offered to t(k int, v <type>):
+\*   values          INSERT INTO t VALUES (k, v)
+\*   listed          INSERT INTO t(k, v) VALUES (k, v)
+\*   permuted        INSERT INTO t(v, k) VALUES (v, k)       -- column list in another order than the table
+\*   select          INSERT INTO t SELECT k, v FROM src
+\*   select_permuted INSERT INTO t(v, k) SELECT v, k FROM src
+\*   subset          INSERT INTO t(k) VALUES (k)             -- v omitted: NULL is offered
+\*   subset_other    INSERT INTO t(v) VALUES (v)             -- k omitted
+Forms  == {"values", "listed", "permuted", "select", "select_permuted", "subset", "subset_other"}
+\* the value offered to the *other* column k (nullable int): 1 or NULL; it must arrive unchanged and must not
+\* influence what happens to v
+KForms == {"values", "listed", "permuted"}
 
 \* the set of outcomes the property allows: "same" (stored unchanged), "null", "err"
 Allowed(cls, nullable) ==
@@ -37,10 +48,12 @@ Applies(ty, cls) ==
 VARIABLE done
 Init == done = FALSE
 Next == /\ ~done
-        /\ \A ty \in Types, cls \in Classes, nn \in BOOLEAN, f \in Forms :
-              (Applies(ty, cls) /\ ~(f = "subset" /\ cls # "null")) =>
+        /\ \A ty \in Types, cls \in Classes, nn \in BOOLEAN, f \in Forms, knull \in BOOLEAN :
+              (/\ Applies(ty, cls)
+               /\ ~(f = "subset" /\ cls # "null")
+               /\ (knull => f \in KForms)) =>
                  PrintT(<<"CASE", ToJson([ty |-> ty, cls |-> cls, nullable |-> nn, form |-> f,
-                                           allowed |-> Allowed(cls, nn)])>>)
+                                           knull |-> knull, allowed |-> Allowed(cls, nn)])>>)
         /\ done' = TRUE
 Spec == Init /\ [][Next]_done
 ==============================================================================
